@@ -7,9 +7,9 @@ productions `e1 … e10`, `args`, `key_values`, `method_call`, `index_call`, `fo
 Every production is written as in the Python source, statement by statement, in a state-and-exception
 monad `P`. Recursion is open: each production takes the recursive entry points (`stmt` for `statement()`,
 `cb` for `codeblock()`) as parameters, and `statement`/`codeblock` tie the knot by recursion on fuel.
-Loops (`while self.accept(...)`) recurse on a loop-fuel argument.  Exceptions the real code lets escape
-(TypeError from hashing an `EmptyNode` dict key, UnicodeDecodeError from `StringNode.escape`) are
-constructors of `Err`, not defaults.
+Loops (`while self.accept(...)`) recurse on a loop-fuel argument.  Every exception the real code raises is a
+constructor of `Err` (the `UnicodeDecodeError` of `StringNode.escape` and the `TypeError` of an unhashable
+dict key are caught by the parser and re-raised as located `ParseException`s).
 -/
 import MesonModel.Lang.Ast
 
@@ -24,8 +24,6 @@ inductive EscErr where
 inductive Err where
   | parse (lineno colno : Nat)      -- ParseException
   | block (lineno colno : Nat)      -- BlockParseException
-  | unhashableKey                   -- TypeError: unhashable type: 'EmptyNode' (escapes the parser)
-  | badEscape (e : EscErr)          -- UnicodeDecodeError (escapes the parser)
   | notInNoWs                       -- AttributeError in e4 (`temp_node.whitespaces` is None); unreachable after the lexer
   | fuel                            -- model artefact: recursion fuel exhausted
   deriving Repr, DecidableEq
@@ -118,8 +116,8 @@ structure PState where
   inTernary : Bool := false
   /-- resolved `\N{name}` escapes (the Unicode name table is a parameter of the model) -/
   names : List (Str × Nat) := []
-  /-- ghost: number of events after which the tree cannot print back as the source — a `not` consumed by
-  `e4` and then dropped, or a positional argument appended after a keyword argument (`order_error`) -/
+  /-- ghost: number of events after which the tree cannot print back as the source — a positional argument
+  appended after a keyword argument (`ArgumentNode.order_error`) -/
   lossy : Nat := 0
   deriving Repr
 
@@ -251,7 +249,7 @@ def e10 : P Node := do
       else
         let s ← P.get
         match escape s.names t.value with
-        | .error e => P.fail (.badEscape e)
+        | .error _ => P.fail (.parse t.lineno t.colno)   -- `except UnicodeDecodeError: raise ParseException(.., t.lineno, t.colno)`
         | .ok v => create (.string (Base.ofTok t) t.value v multi f)
     | none => emptyAtCur
 
@@ -331,7 +329,7 @@ def kvLoop (stmt : P Node) : Nat → Node → Node → P Node
       let c ← createSymbol (← prev)
       let a := argsAddColon a c
       let v ← stmt
-      if !hashable s then P.fail .unhashableKey
+      if !hashable s then raiseAt s   -- `except TypeError: raise ParseException('Invalid dictionary key.', .., s.lineno, s.colno)`
       else
         let a := argsSetKw a s v
         if !(← accept .comma) then pure a
@@ -479,7 +477,7 @@ def e5 (stmt : P Node) (k : Nat) : P Node := do
   let left ← e6 stmt k
   e5Loop stmt k k left
 
-/-- `e4`, including the `not in` token merge and the path on which a lone `not` is consumed and lost -/
+/-- `e4`, including the `not in` token merge; a `not` that no `in` follows is a located error -/
 def e4 (stmt : P Node) (k : Nat) : P Node := do
   let left ← e5 stmt k
   match ← acceptAny comparisonTids with
@@ -503,8 +501,8 @@ def e4 (stmt : P Node) (k : Nat) : P Node := do
           let r ← e5 stmt k
           create (.binop (.cmp "not in".toList) (Base.at left.lineno left.colno) left o r)
       else do
-        P.modify (fun s => { s with lossy := s.lossy + 1 })
-        pure left
+        let c ← cur
+        P.fail (.parse c.lineno c.colno)   -- 'Expecting "in" after "not".'
     else pure left
 
 def e3Loop (stmt : P Node) (k : Nat) : Nat → Node → P Node
